@@ -465,6 +465,25 @@ def parse_check(src, off, txt, first):
     return "(.%s %s)" % ("assertType" if m.group(1) == "assertType" else "assertUniform", ty)
 
 
+def preceding_check(src, t, at):
+    """The check of the left operand when it is a statement of its own directly before the production at offset `at`:
+    returns the PCheck text, or None when the previous statement is not such a check. Anything between the two statements
+    other than `return` / `result =` means the check does not guard this production."""
+    s = t.rfind(";", 0, at)
+    if s < 0 or not re.fullmatch(r"\s*(return|result\s*=)\s*", t[s + 1:at]):
+        return None
+    b = max(t.rfind(";", 0, s), t.rfind("{", 0, s), t.rfind("}", 0, s))
+    stmt = t[b + 1:s]
+    mm = re.fullmatch(r"\s*((case\s+[^:;{}]+|default)\s*:\s*)*((assertType|assertTypeUniform)\(result\s*,.*\))\s*", stmt, flags=re.S)
+    if not mm:
+        return None
+    call = mm.group(3)
+    args = split_args(src, s, call[call.index("(") + 1:-1])
+    if len(args) != 5 or args[4] != "false":
+        src.fail(s, "the left-operand check before a production must keep `result` on failure (5th argument false): %r" % call)
+    return parse_check(src, s, call, True)
+
+
 def extract_checks():
     src = Src("blocc/parse_expression.cpp")
     t = src.text
@@ -491,6 +510,12 @@ def extract_checks():
             if len(args) != 2:
                 src.fail(o, "binary operator %s built with %d operands" % (name, len(args)))
             chk = (parse_check(src, o, args[0], True), parse_check(src, o, args[1], False))
+            if chk[0] == ".nocheck":
+                # since /repo 443d77e the left operand is checked by a statement of its own, placed DIRECTLY before the one that
+                # builds the node: `assertType[Uniform](result, T, p, ctx, false);` then `return|result = new OpX(result, …);`
+                pre = preceding_check(src, t, m.start())
+                if pre is not None:
+                    chk = (pre, chk[1])
         else:
             src.fail(o, "production for an operator without a model entry: Op%sExpression" % m.group(1))
         if name in found and found[name][0] != chk:
